@@ -140,6 +140,33 @@ impl<'ast> Visit<'ast> for EscapeFinder {
     fn visit_expr_closure(&mut self, _: &'ast syn::ExprClosure) {}
 }
 
+/// escapes other than `?` and `return Err(..)` (those two keep their meaning when an `or_else` closure whose
+/// result goes straight into `?` is inlined: `X.or_else(|e| B)?` == `match X { Ok(v) => v, Err(e) => (B)? }`
+/// with the closure-level exits becoming function-level ones, the error type being the function's own)
+struct HardEscapeFinder {
+    found: bool,
+}
+impl<'ast> Visit<'ast> for HardEscapeFinder {
+    fn visit_expr_return(&mut self, r: &'ast syn::ExprReturn) {
+        let ok = match &r.expr {
+            Some(e) => match &**e {
+                syn::Expr::Call(c) => matches!(&*c.func, syn::Expr::Path(p) if p.path.is_ident("Err")),
+                _ => false,
+            },
+            None => false,
+        };
+        if !ok {
+            self.found = true;
+        }
+    }
+    fn visit_expr_closure(&mut self, _: &'ast syn::ExprClosure) {}
+}
+fn body_escapes_hard(e: &syn::Expr) -> bool {
+    let mut f = HardEscapeFinder { found: false };
+    f.visit_expr(e);
+    f.found
+}
+
 fn body_escapes(e: &syn::Expr) -> bool {
     let mut f = EscapeFinder { found: false };
     f.visit_expr(e);
@@ -371,6 +398,27 @@ impl<'ast, 's> Visit<'ast> for Finder<'s> {
                 );
                 self.push(range_of(f), rep, "R13f");
                 return;
+            }
+            // ---- R14t: `RECV.or_else(|e| BODY)?` where BODY leaves through `?` / `return Err(..)`
+            syn::Expr::Try(t) if self.on("R14") => {
+                if let syn::Expr::MethodCall(mc) = &*t.expr {
+                    if mc.method == "or_else" && mc.args.len() == 1 {
+                        if let syn::Expr::Closure(c) = &mc.args[0] {
+                            if let Some(ps) = closure_simple(c) {
+                                if ps.len() == 1 && body_escapes(&c.body) && !body_escapes_hard(&c.body) {
+                                    let rep = format!(
+                                        "(match {} {{ Ok(__v) => __v, Err({}) => ({})? }})",
+                                        self.txt(&*mc.receiver),
+                                        ps[0],
+                                        self.txt(&*c.body)
+                                    );
+                                    self.push(range_of(t), rep, "R14");
+                                    return;
+                                }
+                            }
+                        }
+                    }
+                }
             }
             // ---- R14: combinators with closure literals
             syn::Expr::MethodCall(mc)
